@@ -30,6 +30,7 @@ type Exec struct {
 	Obs        string   // canonical observation
 	Violations []string // oracle failures; empty = property held on this execution
 	Nontrivial bool     // enumerator only: case reached the feature under test
+	Infra      string   // non-empty: the harness's own infrastructure failed for this case (never a violation)
 }
 
 // Scenario is one closed system to explore.
@@ -73,18 +74,19 @@ type Violation struct {
 
 // ScnStat is per-scenario coverage.
 type ScnStat struct {
-	Name        string `json:"name"`
-	Executions  int64  `json:"executions"`
-	Transitions int64  `json:"transitions"`
-	States      int64  `json:"states"`
-	Pruned      int64  `json:"pruned"`
-	PBCompleted int    `json:"pb_completed"`
-	DB          int    `json:"db"`
-	Horizon     int64  `json:"horizon_hit"`
-	Diverged    int64  `json:"diverged"`
-	MaxChoices  int    `json:"max_choice_points"`
-	Outcomes    int    `json:"distinct_observations"`
-	Exhaustive  bool   `json:"exhaustive"`
+	Name        string   `json:"name"`
+	Executions  int64    `json:"executions"`
+	Transitions int64    `json:"transitions"`
+	States      int64    `json:"states"`
+	Pruned      int64    `json:"pruned"`
+	PBCompleted int      `json:"pb_completed"`
+	DB          int      `json:"db"`
+	Horizon     int64    `json:"horizon_hit"`
+	Diverged    int64    `json:"diverged"`
+	MaxChoices  int      `json:"max_choice_points"`
+	Outcomes    int      `json:"distinct_observations"`
+	Exhaustive  bool     `json:"exhaustive"`
+	ObsHashes   []string `json:"obs_hashes,omitempty"`
 }
 
 // Report is what a harness binary writes for vcheck.
@@ -134,20 +136,22 @@ type reply struct {
 	Nontrivial int64             `json:"nontriv"`
 	TimedOut   bool              `json:"timedout"`
 	Known      map[string]string `json:"known,omitempty"`
+	Infra      []string          `json:"infra,omitempty"`
 }
 
 var (
-	flagTier    = flag.String("tier", "quick", "quick|thorough")
-	flagOut     = flag.String("out", "", "report file")
-	flagWorker  = flag.Bool("worker", false, "internal: worker mode")
-	flagProcs   = flag.Int("procs", 0, "worker processes (default NumCPU)")
-	flagBudget  = flag.Float64("budget", 0, "wall-clock budget in seconds (0 = none); exceeding it ends with exhaustive=false")
-	flagReplay  = flag.String("replay", "", "replay file")
-	flagKnown   = flag.String("known", "", "known findings file")
-	flagScn     = flag.String("scn", "", "only scenarios whose name contains this")
-	flagMaxViol = flag.Int("maxviol", 3, "stop after this many distinct violations")
-	flagShm     = flag.String("shm", "", "internal: shared visited-set file")
-	flagShmBits = flag.Uint("shmbits", 24, "log2 of the number of slots in the shared visited set")
+	flagTier      = flag.String("tier", "quick", "quick|thorough")
+	flagOut       = flag.String("out", "", "report file")
+	flagWorker    = flag.Bool("worker", false, "internal: worker mode")
+	flagProcs     = flag.Int("procs", 0, "worker processes (default NumCPU)")
+	flagBudget    = flag.Float64("budget", 0, "wall-clock budget in seconds (0 = none); exceeding it ends with exhaustive=false")
+	flagReplay    = flag.String("replay", "", "replay file")
+	flagKnown     = flag.String("known", "", "known findings file")
+	flagScn       = flag.String("scn", "", "only scenarios whose name contains this")
+	flagMaxViol   = flag.Int("maxviol", 3, "stop after this many distinct violations")
+	flagShm       = flag.String("shm", "", "internal: shared visited-set file")
+	flagObsHashes = flag.Bool("obshashes", false, "list the hashes of all distinct observations per scenario in the report")
+	flagShmBits   = flag.Uint("shmbits", 24, "log2 of the number of slots in the shared visited set")
 )
 
 func cost(ch []vs.Choice, delay bool) (pre, dev int) {
@@ -439,7 +443,7 @@ func (t *tailBuf) String() string {
 func startWorker(budget float64) (*worker, error) {
 	args := []string{"-worker", "-tier", *flagTier, "-maxviol", fmt.Sprint(*flagMaxViol)}
 	// harness-specific flags are handed on unchanged
-	own := map[string]bool{"worker": true, "tier": true, "maxviol": true, "out": true, "procs": true, "budget": true, "replay": true, "known": true, "scn": true, "shm": true, "shmbits": true}
+	own := map[string]bool{"worker": true, "tier": true, "maxviol": true, "out": true, "procs": true, "budget": true, "replay": true, "known": true, "scn": true, "shm": true, "shmbits": true, "obshashes": true}
 	flag.Visit(func(f *flag.Flag) {
 		if !own[f.Name] {
 			args = append(args, "-"+f.Name+"="+f.Value.String())
@@ -904,6 +908,12 @@ scnLoop:
 			}
 		}
 		st.Outcomes = len(scObs)
+		if *flagObsHashes {
+			for k := range scObs {
+				st.ObsHashes = append(st.ObsHashes, k)
+			}
+			sort.Strings(st.ObsHashes)
+		}
 		rep.Scenarios = append(rep.Scenarios, st)
 		rep.Executions += st.Executions
 		rep.Transitions += st.Transitions
@@ -922,7 +932,7 @@ scnLoop:
 	}
 	sort.Strings(keys)
 	for i, k := range keys {
-		if i >= 6 {
+		if i >= 6 && !*flagObsHashes {
 			break
 		}
 		rep.Samples = append(rep.Samples, k[:strings.LastIndex(k, "/")]+": "+obsAll[k])
